@@ -601,3 +601,86 @@ def replay_graph2(prog, overlap=True, max_paths=100000, collect=False):
             if collect:
                 out['traces'].append({'lines': ex.rt.lines, 'schedule': [list(s) for s in ex.schedule]})
     return out
+
+
+# ------------------------------------------------------------------------------------------------------------
+# code -> spec, step-exact: recorded executions followed by spec/EngineTrace.tla
+# ------------------------------------------------------------------------------------------------------------
+
+TRACE_CFG = '''SPECIFICATION TSpec
+ACTION_CONSTRAINT TExport
+CHECK_DEADLOCK FALSE
+'''
+
+
+def record_execution(prog, policy, cancel_at=None, max_actions=3000):
+    """run prog on the virtual loop under `policy`; returns (labels, projections after each action, lines)"""
+    driver.install_fake_pools()
+    Capture.managers.clear()
+    ex = driver.Execution(prog, manager_cls=make_manager_cls(), max_actions=max_actions)
+    labels = []
+    projs = []
+    with driver.running(ex.loop):
+        ex.start_run(1)
+        while len(ex.returned) < 1 and ex.actions < max_actions:
+            if cancel_at is not None and ex.actions == cancel_at and not ex.main[1].done() and 1 not in ex.cancelled:
+                opt = ('cancel', 1)
+            else:
+                opts = ex.options()
+                if not opts:
+                    break
+                opt = policy.choose(ex, opts)
+            if opt[0] == 'step':
+                owners = ex.loop.ready_owners()
+                o = owners[0] if owners else None
+                lab = ['step', tname(o.get_name()) if isinstance(o, asyncio.Task) else 'timer']
+            elif opt[0] == 'fire':
+                lab = ['fire', opt[1]]
+            elif opt[0] == 'timer':
+                lab = ['tick']
+            else:
+                lab = ['cancel']
+            ex.apply(opt)
+            labels.append(lab)
+            projs.append(normalise(real_proj(ex)))
+        ex.post_run()
+    return labels, projs, ex.rt.lines
+
+
+def follow_scripts(prog, recorded, cancel=False, collab=None, timeout=600):
+    """recorded: list of (labels, projs).  TLC follows every script through Engine.tla; returns per script the first
+    divergence (None if the model did exactly what the code did)"""
+    import os
+    import tempfile
+    inst = model.export_instance(prog, cancel=cancel, collab=collab)
+    f = tempfile.NamedTemporaryFile('w', suffix='.json', delete=False)
+    json.dump([labs for labs, _ in recorded], f)
+    f.close()
+    g = tempfile.NamedTemporaryFile('w', suffix='.json', delete=False)
+    json.dump(inst, g)
+    g.close()
+    try:
+        out, stats = tlc.run_tlc('EngineTrace', TRACE_CFG, env={'INSTANCE_FILE': g.name, 'SCRIPT_FILE': f.name}, workers=1,
+                                 timeout=timeout)
+    finally:
+        os.unlink(f.name)
+        os.unlink(g.name)
+    got = {}
+    for line in out.splitlines():
+        m = re.match(r'^<<"TEDGE", (\d+), (\d+), (".*")>>$', line.strip())
+        if m:
+            got[(int(m.group(1)), int(m.group(2)))] = json.loads(json.loads(m.group(3)))
+    res = []
+    for k, (labs, projs) in enumerate(recorded, 1):
+        div = None
+        for i, lab in enumerate(labs, 1):
+            stt = got.get((k, i))
+            if stt is None:
+                div = {'step': i, 'label': lab, 'what': 'the recorded action is not enabled in the model'}
+                break
+            mp = normalise(model_proj(stt))
+            if mp != projs[i - 1]:
+                div = {'step': i, 'label': lab, 'diff (model, real)': {x: [v[0], v[1]] for x, v in diff(mp, projs[i - 1]).items()}}
+                break
+        res.append(div)
+    return res, stats, ('Error:' in out and out[-1500:] or '')
